@@ -28,10 +28,33 @@ func serverEntries(c *Ctx) []*ssa.Function {
 	return out
 }
 
-// clientSide reports whether fn belongs to the client half of the library (by file).
+// clientSide reports whether fn belongs to the client half of the library. Decided from types and the call graph, not
+// from file names: fn (or an enclosing function) has a receiver, parameter, result or captured variable of a
+// client-only type (reachable from the Connector implementers through fields, not from the server types), or fn is
+// reachable from such functions and from no function of the server half.
 func clientSide(c *Ctx, fn *ssa.Function) bool {
-	f := c.P.File(fn.Pos())
-	return strings.Contains(f, "client") || f == "transport_stdio.go" || f == "transport_http.go"
+	if c.cliFns == nil {
+		c.cliFns = map[*ssa.Function]bool{}
+		var croots, sroots []*ssa.Function
+		srvT := c.serverOnlyTypes()
+		for _, f := range c.P.LibFns {
+			if clientSideByType(c, f) {
+				croots = append(croots, f)
+				c.cliFns[f] = true
+			} else if sideByType(f, srvT) {
+				sroots = append(sroots, f)
+			}
+		}
+		sroots = append(sroots, serverEntries(c)...)
+		sreach := c.Reach(sroots...)
+		c.srvFns = sreach
+		for f := range c.Reach(croots...) {
+			if !sreach[f] {
+				c.cliFns[f] = true
+			}
+		}
+	}
+	return c.cliFns[fn]
 }
 
 // ---- lock pairing -----------------------------------------------------------------------------
@@ -507,4 +530,152 @@ func closeSites(c *Ctx, fns []*ssa.Function) []closeSite {
 		})
 	}
 	return out
+}
+
+// serverSide reports whether fn is reachable from the server half (methods and functions over server-only types,
+// ServeHTTP implementations, the stdio server's Start*).
+func serverSide(c *Ctx, fn *ssa.Function) bool {
+	clientSide(c, fn) // computes both sets
+	return c.srvFns[fn]
+}
+
+// typeClosure returns the library named types reachable from roots through fields, element types and (for
+// interface-typed fields) the library implementers of the interface.
+func typeClosure(c *Ctx, roots []*types.Named) map[*types.Named]bool {
+	seen := map[*types.Named]bool{}
+	var visit func(t types.Type, d int)
+	visit = func(t types.Type, d int) {
+		if t == nil || d > 12 {
+			return
+		}
+		switch x := t.(type) {
+		case *types.Pointer:
+			visit(x.Elem(), d+1)
+		case *types.Slice:
+			visit(x.Elem(), d+1)
+		case *types.Array:
+			visit(x.Elem(), d+1)
+		case *types.Map:
+			visit(x.Key(), d+1)
+			visit(x.Elem(), d+1)
+		case *types.Chan:
+			visit(x.Elem(), d+1)
+		case *types.Named:
+			if x.Obj().Pkg() == nil || !strings.HasPrefix(x.Obj().Pkg().Path(), ir.RootPath) {
+				return
+			}
+			if seen[x] {
+				return
+			}
+			switch u := x.Underlying().(type) {
+			case *types.Struct:
+				seen[x] = true
+				for i := 0; i < u.NumFields(); i++ {
+					visit(u.Field(i).Type(), d+1)
+				}
+			case *types.Interface:
+				if u.NumMethods() == 0 {
+					return
+				}
+				seen[x] = true
+				for _, impl := range c.P.Implementers(u) {
+					visit(impl, d+1)
+				}
+			}
+		}
+	}
+	for _, r := range roots {
+		visit(r, 0)
+	}
+	return seen
+}
+
+// clientTypes: named types that belong to the client half only — reachable from the Connector implementers and not
+// from the server types.
+func (c *Ctx) clientTypes() map[*types.Named]bool {
+	if c.cliTypes != nil {
+		return c.cliTypes
+	}
+	var roots []*types.Named
+	if conn := c.P.RootNamed("Connector"); conn != nil {
+		roots = append(roots, c.P.Implementers(conn.Underlying().(*types.Interface))...)
+	}
+	cli := typeClosure(c, roots)
+	srv := typeClosure(c, c.serverTypes())
+	out := map[*types.Named]bool{}
+	for t := range cli {
+		if !srv[t] {
+			out[t] = true
+		}
+	}
+	c.cliTypes = out
+	return out
+}
+
+func clientSideByType(c *Ctx, fn *ssa.Function) bool { return sideByType(fn, c.clientTypes()) }
+
+// serverOnlyTypes mirrors clientTypes for the server half.
+func (c *Ctx) serverOnlyTypes() map[*types.Named]bool {
+	var roots []*types.Named
+	if conn := c.P.RootNamed("Connector"); conn != nil {
+		roots = append(roots, c.P.Implementers(conn.Underlying().(*types.Interface))...)
+	}
+	cli := typeClosure(c, roots)
+	out := map[*types.Named]bool{}
+	for t := range typeClosure(c, c.serverTypes()) {
+		if !cli[t] {
+			out[t] = true
+		}
+	}
+	return out
+}
+
+func sideByType(fn *ssa.Function, ct map[*types.Named]bool) bool {
+	named := func(t types.Type) *types.Named {
+		for {
+			switch x := t.(type) {
+			case *types.Pointer:
+				t = x.Elem()
+				continue
+			case *types.Named:
+				return x
+			}
+			return nil
+		}
+	}
+	for f := fn; f != nil; f = f.Parent() {
+		sig := f.Signature
+		if sig.Recv() != nil {
+			if n := named(sig.Recv().Type()); n != nil && ct[n] {
+				return true
+			}
+		}
+		for _, fv := range f.FreeVars {
+			if n := named(fv.Type()); n != nil && ct[n] {
+				return true
+			}
+			if p, ok := fv.Type().(*types.Pointer); ok {
+				if n := named(p.Elem()); n != nil && ct[n] {
+					return true
+				}
+			}
+		}
+		for i := 0; i < sig.Params().Len(); i++ {
+			if n := named(sig.Params().At(i).Type()); n != nil && ct[n] {
+				return true
+			}
+		}
+		for i := 0; i < sig.Results().Len(); i++ {
+			t := sig.Results().At(i).Type()
+			if n := named(t); n != nil && ct[n] {
+				return true
+			}
+			if s, ok := t.Underlying().(*types.Signature); ok && s.Params().Len() > 0 {
+				if n := named(s.Params().At(0).Type()); n != nil && ct[n] {
+					return true
+				}
+			}
+		}
+	}
+	return false
 }
